@@ -1133,7 +1133,7 @@ def gen_backup_stress(rng, tier):
     the backup has not yet written reaches it through the delta log only, pivots and cursor items are freed under it"""
     sim = MvccSim(rng, tier, mem='mm')
     sim.lines[0] += ' delta=1 rr=%d' % rng.choice((1, 1, 2))
-    nk = rng.choice((40, 120, 300))
+    nk = rng.choice((12, 40, 40, 120, 300))
     keys = [k * 3 + 1 for k in range(nk)]
     for k in keys:
         sim.lines.append('put %d %d %d' % (sim.w(), k, rng.randrange(3) if sim.kv else 0))
@@ -1152,7 +1152,11 @@ def gen_backup_stress(rng, tier):
         sim.lines.append('close %d' % (i + 1))
         sim.refs[i] = 0
     churn = sorted(set(keys[:4] + rng.sample(keys, nk // 2)))
-    sim.lines.append('store %d conc=%d churn=%s%s' % (s + 1, rng.choice((1, 2, 4)), ','.join(map(str, churn)), rng.choice(('', ' churnat=gc'))))
+    if nk <= 40 and rng.random() < 0.6:
+        # the key just written is deleted and collected after every single item (conc=1: deterministic order)
+        sim.lines.append('store %d conc=1 churn=each' % (s + 1))
+    else:
+        sim.lines.append('store %d conc=%d churn=%s%s' % (s + 1, rng.choice((1, 2, 4)), ','.join(map(str, churn)), rng.choice(('', ' churnat=gc'))))
     sim.refs[s] = 0
     sim.refs.append(0)
     sim.lines.append('gcwait')
